@@ -9,10 +9,13 @@ Operations covered by the theorems (`Heap.Op`): constructors with `parent=` /
 create_section / create_property, append, insert, extend, remove, assigning `.parent` (to
 another container, to None, to the current one, into the own subtree), item assignment on both
 child lists, reorder, rename - applied to attached and detached objects, refused or not.
-clone-then-attach, merge and link resolve/clean are *not* in `Heap.Op`: for those C03 is
-checked on the implementation by the oracle stream only (see `wf_reachable_partial` below).
+clone-then-attach, merge and link resolve/clean are *not* in `Heap.Op`; they are covered by the
+second part of this file ("The extended operation set"): `Model/HeapExt.lean` models clone,
+Section.merge, the link setter and clean/unmerge as programs over the primitive operations, and
+`wf_reachable` is the statement of C03 over histories that mix all of them.
 -/
 import OdmlModel.Proofs.HeapStep
+import OdmlModel.Proofs.HeapExt
 
 namespace C03
 open Heap
@@ -164,5 +167,213 @@ example : (step (run empty (demoOps.take 5)) (.append 3 2)).2 = .raised .valueEr
 example : ((run empty (demoOps.take 5)).node 2).secs = [3] ∧
     ((run empty (demoOps.take 5)).node 1).secs = [] := by decide
 example : ((run empty (demoOps.take 9)).node 3).name = "i3" := by decide
+
+/-! ## The extended operation set: clone (+attach), merge, the link setter, clean
+
+`Model/HeapExt.lean`: `XOp` = every primitive operation, `clone` (the copy is a new detached
+object; attaching it is a following primitive operation), `merge`, `setLink` (clean the old
+resolution, merge the Section found by the path, non-strict), `clean` (unmerge, recursively).
+What the tree structure does not determine (Section types, outcome of the attribute checks of
+merge_check / Property.merge, deep equality, ids of the copies) is an `Oracle`, arbitrary in
+every theorem; so is the recursion budget `fuel`. -/
+
+/-- The full statement of C03 over the extended operation set: after any finite history of
+    primitive operations, clones, merges, link assignments and cleans - each of which succeeds
+    or raises, whatever the oracle answers - the heap is well-formed. -/
+def StatementX : Prop :=
+  ∀ (fuel : Nat) (ops : List (Oracle × XOp)), WF (runX fuel X.empty ops).h
+
+/-- One extended operation keeps the heap well-formed. -/
+theorem wf_step_ext (fuel : Nat) (s : X) (w : WF s.h) (O : Oracle) (op : XOp) :
+    WF (stepX fuel s O op).1.h :=
+  stepX_inv (P := WF) wf_step' fuel s O op w
+
+/-- Any history over the extended operation set, from any well-formed state. -/
+theorem wf_run_ext (fuel : Nat) (s : X) (w : WF s.h) (ops : List (Oracle × XOp)) :
+    WF (runX fuel s ops).h :=
+  runX_inv (P := WF) wf_step' fuel ops s w
+
+/-- C03 over the extended operation set (the full quantifier of the property). -/
+theorem wf_reachable : StatementX :=
+  fun fuel ops => wf_run_ext fuel X.empty wf_empty ops
+
+/-- Refinement: the heap after an extended operation is the heap after some finite sequence of
+    primitive operations (the appends, removes, allocations and id assignments it performs). -/
+theorem ext_step_refines (fuel : Nat) (s : X) (O : Oracle) (op : XOp) :
+    ∃ prims : List Op, run s.h prims = (stepX fuel s O op).1.h :=
+  stepX_inv (P := Reach s.h) (fun _ op r => r.step op) fuel s O op (Reach.refl _)
+
+/-- Every state reachable with the extended operations is reachable with primitive ones. -/
+theorem ext_run_refines (fuel : Nat) (ops : List (Oracle × XOp)) :
+    ∃ prims : List Op, run empty prims = (runX fuel X.empty ops).h :=
+  runX_inv (P := Reach empty) (fun _ op r => r.step op) fuel ops X.empty (Reach.refl _)
+
+/-- Parent chains end, in every state reachable with the extended operations. -/
+theorem parent_chain_terminates_ext (fuel : Nat) (ops : List (Oracle × XOp)) (c : Nat) :
+    ∃ n, up (runX fuel X.empty ops).h n c = none :=
+  parent_chain_terminates _ (wf_reachable fuel ops) c
+
+theorem not_own_ancestor_ext (fuel : Nat) (ops : List (Oracle × XOp)) (c p : Nat)
+    (hp : ((runX fuel X.empty ops).h.node c).parent = some p) :
+    ¬ Anc (runX fuel X.empty ops).h c p :=
+  not_own_ancestor _ (wf_reachable fuel ops) c p hp
+
+theorem in_exactly_one_list_ext (fuel : Nat) (ops : List (Oracle × XOp)) (c p : Nat)
+    (hp : ((runX fuel X.empty ops).h.node c).parent = some p) :
+    ((((runX fuel X.empty ops).h.node c).kind = .sec ∧
+        ((runX fuel X.empty ops).h.node p).secs.count c = 1) ∨
+     (((runX fuel X.empty ops).h.node c).kind = .prop ∧
+        ((runX fuel X.empty ops).h.node p).props.count c = 1)) ∧
+    (∀ q, q ≠ p → c ∉ ((runX fuel X.empty ops).h.node q).secs ∧
+        c ∉ ((runX fuel X.empty ops).h.node q).props) ∧
+    (∀ q c', c' ∈ ((runX fuel X.empty ops).h.node q).secs ∨
+        c' ∈ ((runX fuel X.empty ops).h.node q).props →
+        ((runX fuel X.empty ops).h.node c').parent = some q) :=
+  in_exactly_one_list _ (wf_reachable fuel ops) c p hp
+
+theorem document_is_chain_root_ext (fuel : Nat) (ops : List (Oracle × XOp)) (c : Nat) :
+    ∃ r, Anc (runX fuel X.empty ops).h r c ∧ ((runX fuel X.empty ops).h.node r).parent = none ∧
+      ∀ r', Anc (runX fuel X.empty ops).h r' c →
+        ((runX fuel X.empty ops).h.node r').parent = none → r' = r :=
+  document_is_chain_root _ (wf_reachable fuel ops) c
+
+/-- What `stepX` does for a clone, in terms of `cloneAux`. -/
+theorem stepX_clone (fuel : Nat) (s : X) (O : Oracle) (x : Nat) (ch kid : Bool)
+    (hok : (stepX fuel s O (.clone x ch kid)).2 = .ok) :
+    stepX fuel s O (.clone x ch kid) =
+      ((cloneAux O fuel { s with orig := id } x ch kid).1,
+       (cloneAux O fuel { s with orig := id } x ch kid).2.2) := by
+  unfold stepX at hok ⊢
+  simp only at hok ⊢
+  split
+  · rename_i hg; rw [if_pos hg] at hok; cases hok
+  · rfl
+
+/-- A clone that succeeds yields a *detached* object: the copy (the next free handle) has no
+    parent and is in no child list. -/
+theorem clone_detached (fuel : Nat) (s : X) (O : Oracle) (x : Nat) (ch kid : Bool) (w : WF s.h)
+    (hok : (stepX fuel s O (.clone x ch kid)).2 = .ok) :
+    s.h.size < (stepX fuel s O (.clone x ch kid)).1.h.size ∧
+    ((stepX fuel s O (.clone x ch kid)).1.h.node s.h.size).parent = none ∧
+    ∀ p, s.h.size ∉ ((stepX fuel s O (.clone x ch kid)).1.h.node p).secs ∧
+         s.h.size ∉ ((stepX fuel s O (.clone x ch kid)).1.h.node p).props := by
+  have w' := wf_step_ext fuel s w O (.clone x ch kid)
+  have he := stepX_clone fuel s O x ch kid hok
+  rw [he] at hok w' ⊢
+  have sp := cloneAux_spec O fuel { s with orig := id } x ch kid w
+  have hroot : (cloneAux O fuel { s with orig := id } x ch kid).2.1 = s.h.size := sp.root
+  obtain ⟨hlt, hdet⟩ := sp.ok hok
+  rw [hroot] at hlt hdet
+  refine ⟨hlt, hdet, fun p => ⟨fun hm => ?_, fun hm => ?_⟩⟩
+  · have := ((w'.memS p _).mp hm).1; rw [hdet] at this; cases this
+  · have := ((w'.memP p _).mp hm).1; rw [hdet] at this; cases this
+
+/-- Every object of the clone is fresh: no object that existed before is changed in any field
+    (in particular none is moved into the copy, and no child list of the original is shared),
+    and everything at or below the copy is a new object. -/
+theorem clone_fresh (fuel : Nat) (s : X) (O : Oracle) (x : Nat) (ch kid : Bool) (w : WF s.h)
+    (hok : (stepX fuel s O (.clone x ch kid)).2 = .ok) :
+    (∀ i, i < s.h.size → (stepX fuel s O (.clone x ch kid)).1.h.node i = s.h.node i) ∧
+    (∀ i, Anc (stepX fuel s O (.clone x ch kid)).1.h s.h.size i → s.h.size ≤ i) := by
+  rw [stepX_clone fuel s O x ch kid hok]
+  have sp := cloneAux_spec O fuel { s with orig := id } x ch kid w
+  have hs : Same s.h.size s.h (cloneAux O fuel { s with orig := id } x ch kid).1.h := sp.same
+  refine ⟨hs.2, fun i ha => ?_⟩
+  rcases Nat.lt_or_ge i s.h.size with hi | hi
+  · have := anc_old w hs ha hi; omega
+  · exact hi
+
+/-- `clone` terminates: on a well-formed heap a recursion budget of the number of objects is never
+    used up (the copy is as deep as the original, and a parent chain of a well-formed heap has no
+    repetition), so the model's `.fuel` answer does not occur for it. -/
+theorem clone_terminates (fuel : Nat) (s : X) (O : Oracle) (x : Nat) (ch kid : Bool) (w : WF s.h)
+    (hf : s.h.size ≤ fuel) : (stepX fuel s O (.clone x ch kid)).2 ≠ .fuel := by
+  unfold stepX
+  simp only
+  split
+  · simp
+  · rename_i hg
+    have hx : x < s.h.size := by
+      rcases Nat.lt_or_ge x s.h.size with h1 | h1
+      · exact h1
+      · exfalso; apply hg; simp [XOp.handles, h1]
+    exact cloneAux_no_fuel O w fuel { s with orig := id } x ch kid [] w (Same.refl _ _)
+      ⟨hx, fun p hp => absurd hp (List.not_mem_nil), List.nodup_nil⟩ (by simpa using hf)
+
+/-- clone followed by attach (or by any other primitive operation on the copy). -/
+theorem clone_then_attach_wf (fuel : Nat) (s : X) (w : WF s.h) (O O' : Oracle) (x : Nat)
+    (ch kid : Bool) (attach : Op) :
+    WF (runX fuel s [(O, .clone x ch kid), (O', .prim attach)]).h :=
+  wf_run_ext fuel s w _
+
+/-- `merge` never moves, removes, renames or re-kinds an object that existed before (of the
+    destination, of the source or anywhere else): kinds, names, ids and parents are unchanged
+    and child lists only grow at the end, by new objects (the copies). Whether it succeeds or
+    raises half-way (KeyError of `append`, C13/section-name-clash-other-type). -/
+theorem merge_only_adds (fuel : Nat) (s : X) (O : Oracle) (dest src : Nat) (w : WF s.h) :
+    Adds s.h.size s.h (stepX fuel s O (.merge dest src)).1.h := by
+  unfold stepX
+  simp only
+  split
+  · exact Adds.refl _ _
+  · split
+    · exact Adds.refl _ _
+    · exact (mergeAux_adds O (Nat.le_refl _) fuel { s with orig := id } dest src
+        ⟨w, Adds.refl _ _⟩).2
+
+/-- `merge_only_adds` spelled out for one object `i` that existed before the merge. -/
+theorem merge_keeps_existing (fuel : Nat) (s : X) (O : Oracle) (dest src : Nat) (w : WF s.h)
+    (i : Nat) (hi : i < s.h.size) :
+    ((stepX fuel s O (.merge dest src)).1.h.node i).parent = (s.h.node i).parent ∧
+    ((stepX fuel s O (.merge dest src)).1.h.node i).kind = (s.h.node i).kind ∧
+    ((stepX fuel s O (.merge dest src)).1.h.node i).name = (s.h.node i).name ∧
+    (∃ l, ((stepX fuel s O (.merge dest src)).1.h.node i).secs = (s.h.node i).secs ++ l ∧
+       ∀ c ∈ l, s.h.size ≤ c) ∧
+    (∃ l, ((stepX fuel s O (.merge dest src)).1.h.node i).props = (s.h.node i).props ++ l ∧
+       ∀ c ∈ l, s.h.size ≤ c) := by
+  obtain ⟨hk, hn, _, hp, hs, hpr⟩ := (merge_only_adds fuel s O dest src w).2 i hi
+  exact ⟨hp, hk, hn, hs, hpr⟩
+
+/-- `clean` (and with it `unmerge`) only detaches: no object is created, no kind or name changes, an
+    object's parent afterwards is its parent before or none, child lists only lose entries - whether
+    it succeeds or raises (RuntimeError of `unmerge`, ValueError of `get_relative_path`). -/
+theorem clean_only_detaches (fuel : Nat) (s : X) (O : Oracle) (x : Nat) (w : WF s.h) :
+    Detaches s.h (stepX fuel s O (.clean x)).1.h := by
+  unfold stepX
+  simp only
+  split
+  · exact Detaches.refl _
+  · split
+    · exact Detaches.refl _
+    · exact (cleanAux_inv (P := CInv s.h) (cinv_remove s.h) O fuel { s with orig := id } x
+        ⟨w, Detaches.refl _⟩).2
+
+/-! ### Non-vacuity of the extended part -/
+
+def demoOracle : Oracle :=
+  { ty := fun _ => "t", secOk := fun _ _ => true, propOk := fun _ _ => true,
+    eq := fun a b => a == b, relOk := fun _ _ => true, ids := fun i => s!"n{i}" }
+
+/-- doc(0) / a(1) / x(3), doc / b(2); clone a, attach the copy to b; merge a into b/a'. -/
+def demoXOps : List (Oracle × XOp) := [
+  (demoOracle, .prim (.construct .doc "" "d" none true)),
+  (demoOracle, .prim (.construct .sec "a" "i1" (some 0) true)),
+  (demoOracle, .prim (.construct .sec "b" "i2" (some 0) true)),
+  (demoOracle, .prim (.construct .sec "x" "i3" (some 1) true)),
+  (demoOracle, .clone 1 true false),          -- copy 4 with child 5
+  (demoOracle, .prim (.append 2 4)),
+  (demoOracle, .merge 2 0),                   -- refused: the source is not a Section
+  (demoOracle, .merge 2 1),                   -- b gets a copy of x (6)
+  (demoOracle, .setLink 4 (.path (some 1))),
+  (demoOracle, .clean 0)
+]
+
+example : ((runX 10 X.empty (demoXOps.take 6)).h.node 2).secs = [4] ∧
+    ((runX 10 X.empty (demoXOps.take 6)).h.node 4).secs = [5] := by decide
+example : (stepX 10 (runX 10 X.empty (demoXOps.take 6)) demoOracle (.merge 2 0)).2 =
+    .raised .attributeError := by decide
+example : ((runX 10 X.empty (demoXOps.take 8)).h.node 2).secs = [4, 6] := by decide
+example : (runX 10 X.empty (demoXOps.take 9)).merged 4 = some 1 := by decide
+example : (runX 10 X.empty demoXOps).merged 4 = none := by decide
 
 end C03
